@@ -12,3 +12,4 @@ INVARIANTS
   InvKeptInPlace
   InvUnmountOrderTrue
   InvMountOrder
+  InvUnmountStrandsNothing
